@@ -129,6 +129,8 @@ class DMETProblemDecomposition(ProblemDecomposition):
                 raise RuntimeError("An atom id is higher than the number of atom (indices start at 0).")
             elif len(fragment_atoms_flatten) != len(set(fragment_atoms_flatten)):
                 raise RuntimeError("Atom indices must only appear once.")
+            elif len(fragment_atoms_flatten) != self.molecule.natm:
+                raise RuntimeError("The number of fragment sites is not equal to the number of atoms in the molecule")
 
             # Converting fragment_atoms to an expected list of number of atoms (not atom ids).
             new_fragment_atoms = [len(frag) for frag in self.fragment_atoms]
